@@ -11,6 +11,7 @@
 (*   arr : "any" ([]any) | "typed" ([]T) | "array" ([n]T) | "arrayany"     *)
 (*   obj : "any" (map[string]any) | "typed" (map[string]T)                 *)
 (*         | "namedkey" (map[K]any, K a defined string type)               *)
+(*         | "numberkey" (map[json.Number]any)                              *)
 (*   w   : sequence over {"ptr", "iface"} applied innermost first          *)
 (* Den strips the tags: the JSON value a representation denotes.           *)
 (*                                                                         *)
